@@ -99,6 +99,13 @@ def Grid.eq (a b : Grid) : Bool := decide (a.system = b.system) && a.coords.eq b
 
 def Grid.eqOld (a b : Grid) : Bool := decide (a.system = b.system) && a.coords.eqOld b.coords
 
+/-- `Grid.__eq__` when coordinates may be **NaN** (`na` / `nb`: "some coordinate value of `a` / `b` — a
+`delta` or `zero` entry of regular coordinates, an axis or column entry otherwise — is NaN"; the
+rational grid holds any placeholder at those positions).  `np.array_equal` compares elementwise with
+IEEE `==`, under which NaN differs from everything, itself included: with a NaN on either side the
+answer is `False` whatever the shapes and the other values are. -/
+def Grid.eqNaN (a b : Grid) (na nb : Bool) : Bool := a.eq b && !na && !nb
+
 def Grid.hashInput (g : Grid) : List Tok := Tok.name g.system :: g.coords.hashInput
 
 def getR (x : List Rat) (i : Nat) : Rat := x.getD i 0
